@@ -184,3 +184,16 @@ macro_rules! with_lab_type {
         }
     };
 }
+
+/// every operation is also called through its `Result` receiver (the chaining form); the two answers must coincide
+pub fn okr<T: ArrayElement>(a: &Array<T>) -> Result<Array<T>, ArrayError> { Ok(a.clone()) }
+pub fn w2(plain: String, wrapped: String) -> String {
+    if plain == wrapped { plain } else { format!("!wrapper(plain {plain} / through Result {wrapped})") }
+}
+
+thread_local! { pub static WRAP_MISMATCH: std::cell::Cell<bool> = const { std::cell::Cell::new(false) }; }
+/// the plain result, after comparing it (as text: NaN-safe) with the result through the `Result` receiver
+pub fn wr<T: Lab>(plain: Result<Array<T>, ArrayError>, wrapped: Result<Array<T>, ArrayError>) -> Result<Array<T>, ArrayError> {
+    if res_arr(&plain) != res_arr(&wrapped) { WRAP_MISMATCH.with(|f| f.set(true)); }
+    plain
+}
